@@ -704,7 +704,7 @@ func nestWKB(r *h.Rand, inner []byte, k int) []byte {
 func init() {
 	h.Register(&h.Monitor{
 		ID: "C05",
-		Rule: "exhaustive short inputs (every 0/1/2-byte string through both vector-tile entry points; every WKB message byte-order {0,1,2,0xff} x type word {0..8, EWKB/flag variants, 1001, ...} x boundary counts {0,1,2,2^27+3,2^28,2^28+1,2^31,2^32-1} x 4 payloads and every prefix of it through all 24 WKB paths; every WKT sentence of <= 4 (quick) / <= 5 (thorough) tokens over a 16-token alphabet through the 8 parsers) plus structure-aware mutations (truncate, splice, bit flips, count overwrite, insert/delete/repeat, collection nesting to 64 levels, JSON value replacement / member dropping / deep arrays, BSON length corruption, hand-built hostile tiles with arbitrary command words, counts and wire types, gzip damage) of valid encodings of generated geometries, features and layer sets, through all 58 decoder entry points. " +
+		Rule: "exhaustive short inputs (every 0/1/2-byte string through both vector-tile entry points; every WKB message byte-order {0,1,2,0xff} x type word {0..8, EWKB/flag variants, 1001, ...} x boundary counts {0,1,2,2^27+3,2^28,2^28+1,2^31,2^32-1} x 4 payloads and every prefix of it through all 24 WKB paths; every prefix of two-member multi geometries / collections whose member header carries EWKB flags (with and without the announced SRID bytes), the other byte order or another type; every WKT sentence of <= 4 (quick) / <= 5 (thorough) tokens over a 16-token alphabet through the 8 parsers) plus structure-aware mutations (truncate, splice, bit flips, count overwrite, insert/delete/repeat, collection nesting to 64 levels, JSON value replacement / member dropping / deep arrays, BSON length corruption, hand-built hostile tiles with arbitrary command words, counts and wire types, gzip damage) of valid encodings of generated geometries, features and layer sets, through all 58 decoder entry points. " +
 			"non-trivial = an input that at least one decoder of its family accepts or that has >= 8 bytes; distinct = hash of (family, input)",
 		MinNontrivial: h.Fixed(100000, 2000000),
 		Assumptions: []string{
@@ -755,6 +755,102 @@ func init() {
 					c05run(c, "wkb", append(le32(4326), msg...), what+" with SRID prefix")
 					c.Nontrivial(h.Mix(2, idx))
 					if idx%97 == 5 {
+						c.Sample(map[string]interface{}{"family": "wkb", "input_hex": hex.EncodeToString(msg), "how": what + ", every prefix"})
+					}
+				},
+			},
+			{
+				// headers of the *members* of multi geometries and collections: the library's encoders write them plain, a
+				// hostile (or foreign) writer sets EWKB flags on them, with or without the SRID bytes the flag announces,
+				// flips their byte order or names another type; every prefix of each message goes through every WKB path
+				Name: "wkb-member-header-matrix", Count: h.Fixed(4*2*2*2*2*8, 4*2*2*2*2*8), Exhaustive: h.Always,
+				Run: func(c *h.Ctx, idx uint64, r *h.Rand) {
+					i := idx
+					pick := func(n uint64) uint64 { v := i % n; i /= n; return v }
+					ctyp := []uint32{4, 5, 6, 7}[pick(4)]
+					bo := byte(pick(2))
+					topSRID := pick(2) == 1
+					otherOrder := pick(2) == 1
+					pos := int(pick(2))
+					variant := pick(8)
+					encOf := func(b byte) func(uint32) []byte {
+						if b == 0 {
+							return be32
+						}
+						return le32
+					}
+					f64 := func(b byte, v float64) []byte {
+						out := make([]byte, 8)
+						if b == 0 {
+							binary.BigEndian.PutUint64(out, math.Float64bits(v))
+						} else {
+							binary.LittleEndian.PutUint64(out, math.Float64bits(v))
+						}
+						return out
+					}
+					enc := encOf(bo)
+					var msg []byte
+					msg = append(msg, bo)
+					if topSRID {
+						msg = append(msg, enc(ctyp|0x20000000)...)
+						msg = append(msg, enc(4326)...)
+					} else {
+						msg = append(msg, enc(ctyp)...)
+					}
+					msg = append(msg, enc(2)...)
+					childType := map[uint32]uint32{4: 1, 5: 2, 6: 3, 7: 1}[ctyp]
+					for m := 0; m < 2; m++ {
+						cbo, word, srid := bo, childType, false
+						if m == pos {
+							if otherOrder {
+								cbo = 1 - bo
+							}
+							switch variant {
+							case 0: // plain
+							case 1:
+								word, srid = childType|0x20000000, true
+							case 2:
+								word = childType | 0x20000000 // flag without the bytes it announces
+							case 3:
+								word = childType | 0x80000000
+							case 4:
+								word = childType | 0x40000000
+							case 5:
+								word, srid = childType|0xe0000000, true
+							case 6:
+								word = childType%7 + 1 // another kind
+							case 7:
+								word = 1000 + childType
+							}
+						}
+						ce := encOf(cbo)
+						msg = append(msg, cbo)
+						msg = append(msg, ce(word)...)
+						if srid {
+							msg = append(msg, ce(4326)...)
+						}
+						npts := 1
+						switch childType {
+						case 2:
+							msg = append(msg, ce(2)...)
+							npts = 2
+						case 3:
+							msg = append(msg, ce(1)...)
+							msg = append(msg, ce(4)...)
+							npts = 4
+						}
+						for k := 0; k < npts; k++ {
+							msg = append(msg, f64(cbo, float64(k%2)+0.5)...)
+							msg = append(msg, f64(cbo, float64(k/2)+0.25)...)
+						}
+					}
+					what := fmt.Sprintf("container type %d (order %d, top srid %v), member %d: header variant %d, other byte order %v", ctyp, bo, topSRID, pos, variant, otherOrder)
+					for n := 0; n <= len(msg); n++ {
+						c05run(c, "wkb", msg[:n], what+fmt.Sprintf(" truncated to %d bytes", n))
+					}
+					c05run(c, "wkb", []byte(hex.EncodeToString(msg)), what+" as hex text")
+					c.Nontrivial(h.Mix(5, idx))
+					if idx%61 == 7 {
 						c.Sample(map[string]interface{}{"family": "wkb", "input_hex": hex.EncodeToString(msg), "how": what + ", every prefix"})
 					}
 				},
